@@ -1261,7 +1261,10 @@ class RC:
                 self.report('S4-assigns-final-variable', p2, None, e.name, e)
             if crossed and self.lang == 'java' and isinstance(d, ast.VariableDeclaration):
                 self.report('S4-java-lambda-assigns-captured-local', p2, None, e.name, e)
-            self.check('R5-assignment', p2, self.ty(e.expr, env, p2, vt), vt, e.expr)
+            # (a top-level variable assigned inside a function is tagged: the mutations analyse each function against a
+            # cached graph of the top-level declarations, a different code path from locals)
+            top = any(d is x for x in self.decls) and len(path) > 1
+            self.check('R5-assignment' + ('/top-level-variable' if top else ''), p2, self.ty(e.expr, env, p2, vt), vt, e.expr)
         else:
             rt = self.ty(e.receiver, env, p2)
             self.bump('sites_S2')
